@@ -6,9 +6,10 @@ set_option linter.unusedSimpArgs false
 set_option linter.unusedVariables false
 namespace Replicat.Retry
 
-/-- the decorator is there, catches the adapter's error class and has a positive `max_tries` -/
+/-- the decorator is there, catches the adapter's error class, has a positive `max_tries`, and its `giveup=` predicate singles out
+no class of OSError (an I/O error is transient whatever its errno: ENOENT, EACCES, ENOSPC, … are retried like EIO) -/
 def PolSound (cfg : Cfg) (dec : Bool) : Prop :=
-  cfg.maxTries = some cfg.budget ∧ 1 ≤ cfg.budget ∧ dec = true ∧ cfg.catches = true
+  cfg.maxTries = some cfg.budget ∧ 1 ≤ cfg.budget ∧ dec = true ∧ cfg.catches = true ∧ cfg.giveupOs = []
 
 instance (cfg : Cfg) (dec : Bool) : Decidable (PolSound cfg dec) := by unfold PolSound; infer_instance
 
@@ -25,7 +26,7 @@ theorem policy_no_retry_at_limit (b : Backend) (cfg : Cfg) (dec ra : Bool) (h : 
   have hl : limitHit cfg.maxTries cfg.budget = true := by rw [limitHit_budget cfg h]; simp
   cases e with
   | auth => simp only; split <;> simp
-  | os => simp only [hl, Bool.or_true, if_true]; split <;> simp
+  | os k => simp only [hl, Bool.or_true, if_true]; split <;> simp
   | transport => simp only [hl, Bool.or_true, if_true]; split <;> simp
   | status code r => simp only [hl, Bool.or_true, if_true]; split <;> simp
 
@@ -39,7 +40,7 @@ theorem policy_reauth_allowed (b : Backend) (cfg : Cfg) (dec ra : Bool) (e : Err
     simp only [hA, Bool.and_false, Bool.false_eq_true, if_false] at h
     cases e with
     | auth => simp at h
-    | os => simp only at h; split at h <;> (try split at h) <;> (try split at h) <;> simp at h
+    | os k => simp only at h; split at h <;> (try split at h) <;> (try split at h) <;> simp at h
     | transport => simp only at h; split at h <;> (try split at h) <;> (try split at h) <;> simp at h
     | status code r =>
       simp only at h
@@ -55,7 +56,7 @@ theorem policy_no_reauth (b : Backend) (cfg : Cfg) (dec : Bool) (e : Err) (tries
   unfold policy
   cases e with
   | auth => simp
-  | os => simp only [Bool.false_and, Bool.false_eq_true, if_false]; split <;> (try split) <;> (try split) <;> simp
+  | os k => simp only [Bool.false_and, Bool.false_eq_true, if_false]; split <;> (try split) <;> (try split) <;> simp
   | transport => simp only [Bool.false_and, Bool.false_eq_true, if_false]; split <;> (try split) <;> (try split) <;> simp
   | status code r =>
     simp only [Bool.false_and, Bool.false_eq_true, if_false]
@@ -67,18 +68,24 @@ theorem policy_no_reauth (b : Backend) (cfg : Cfg) (dec : Bool) (e : Err) (tries
 
 /-! ## local -/
 
-theorem policy_local_os (cfg : Cfg) (dec ra : Bool) (hs : PolSound cfg dec) (tries rounds : Nat) :
-    policy .local cfg dec ra .os tries rounds = if tries = cfg.budget then .raise .os false else .retry false := by
-  obtain ⟨hm, _, hd, hc⟩ := hs
+theorem policy_local_os (cfg : Cfg) (dec ra : Bool) (hs : PolSound cfg dec) (k tries rounds : Nat) :
+    policy .local cfg dec ra (.os k) tries rounds = if tries = cfg.budget then .raise (.os k) false else .retry false := by
+  obtain ⟨hm, _, hd, hc, hg⟩ := hs
   unfold policy
-  simp only [hd, hc, limitHit_budget cfg hm]
+  simp only [hd, hc, hg, limitHit_budget cfg hm]
   by_cases h : tries = cfg.budget <;> simp [h]
+
+/-- a `giveup=` predicate that singles out a class of OSError ends the call at once, whatever the try counter says -/
+theorem policy_local_os_giveup (cfg : Cfg) (dec ra : Bool) (hd : dec = true) (hc : cfg.catches = true) (k tries rounds : Nat)
+    (hk : k ∈ cfg.giveupOs) : policy .local cfg dec ra (.os k) tries rounds = .raise (.os k) false := by
+  unfold policy
+  simp [hd, hc, hk]
 
 /-! ## S3 / B2: transport errors and statuses -/
 
 theorem policy_http_transport (b : Backend) (hb : b ≠ .local) (cfg : Cfg) (dec ra : Bool) (hs : PolSound cfg dec) (tries rounds : Nat) :
     policy b cfg dec ra .transport tries rounds = if tries = cfg.budget then .raise .transport false else .retry false := by
-  obtain ⟨hm, _, hd, hc⟩ := hs
+  obtain ⟨hm, _, hd, hc, _⟩ := hs
   unfold policy
   simp only [hd, hc, limitHit_budget cfg hm]
   cases b with
@@ -89,7 +96,7 @@ theorem policy_http_transport (b : Backend) (hb : b ≠ .local) (cfg : Cfg) (dec
 theorem policy_s3_status (cfg : Cfg) (dec ra : Bool) (hs : PolSound cfg dec) (code : Nat) (r : Bool) (tries rounds : Nat) :
     policy .s3 cfg dec ra (.status code r) tries rounds =
       if cfg.giveupStatus = some code ∨ tries = cfg.budget then .raise (.status code r) false else .retry false := by
-  obtain ⟨hm, _, hd, hc⟩ := hs
+  obtain ⟨hm, _, hd, hc, _⟩ := hs
   unfold policy
   simp only [hd, hc, limitHit_budget cfg hm]
   by_cases h : tries = cfg.budget <;> by_cases g : cfg.giveupStatus = some code <;> simp [h, g]
@@ -103,7 +110,7 @@ theorem policy_b2_status (cfg : Cfg) (dec ra : Bool) (hs : PolSound cfg dec) (co
         (if (ra && cfg.reauthOnAuthRequired && reauthAllowed cfg rounds) = true then .reauth (r && cfg.handlerSleepsRetryAfter)
          else .raise .auth (r && cfg.handlerSleepsRetryAfter))
       else .retry (r && cfg.handlerSleepsRetryAfter) := by
-  obtain ⟨hm, _, hd, hc⟩ := hs
+  obtain ⟨hm, _, hd, hc, _⟩ := hs
   unfold policy
   simp only [hd, hc, limitHit_budget cfg hm]
   by_cases p : cfg.plainRetryStatus = some code <;> simp [hg, ht, p]
@@ -111,7 +118,7 @@ theorem policy_b2_status (cfg : Cfg) (dec ra : Bool) (hs : PolSound cfg dec) (co
 theorem policy_b2_status_raise (cfg : Cfg) (dec ra : Bool) (hs : PolSound cfg dec) (code : Nat) (r : Bool) (tries rounds : Nat)
     (h : cfg.giveupStatus = some code ∨ tries = cfg.budget) :
     policy .b2 cfg dec ra (.status code r) tries rounds = .raise (.status code r) false := by
-  obtain ⟨hm, _, hd, hc⟩ := hs
+  obtain ⟨hm, _, hd, hc, _⟩ := hs
   unfold policy
   simp only [hd, hc, limitHit_budget cfg hm]
   rcases h with h | h <;> simp [h]
